@@ -229,48 +229,52 @@ theorem insert_commit_exact {k k1 k2 : K} (h : KInv k) {th : Tid} {t n : Nat} {v
       simp [tableKeys, List.filter_cons, this]
     rw [htk, hscan _ (fun key hk => mem_tableKeys hk)]
 
-/-! ### what the code that exists does: the unconditional statement is false -/
+/-! ### the two defects of the original code, now regression inputs
 
-/-- Schedule taken from the real implementation (check C09, case `w-stale-snapshot`): the
-compactor pins, locks and compacts one table; meanwhile `DELETE FROM t1 WHERE v = 1` commits on
-the other table; the compactor then compacts that table from the snapshot it pinned before the
-DELETE.  The DELETE is acknowledged and row 1 is back. -/
+Until /repo f6c3dfb / a61a0a6 the unconditional statement was false: the compactor pinned ONE
+snapshot per pass before taking any table lock, and a DELETE wrote its delete vectors for row
+handlers its scan had collected before a compaction replaced the row-sets.  Both schedules below
+were taken from the real implementation after the repair (the check re-drives them at every
+run) and show the interleaving is harmless now. -/
+
+/-- The compactor locks and compacts one table; meanwhile `DELETE FROM t2 WHERE v = 101` commits
+on the other table; the compactor then locks that table, pins (only now) and compacts it. -/
 def staleSnapshotSchedule : List Act :=
   [.cmdBegin (0,0) (.create 1), .bound (0,0), .commitBegin (0,1), .commitA (0,1), .append (0,1),
    .committed (0,1), .createApplied (0,1), .cmdDone (0,0), .cmdBegin (0,0) (.create 2),
    .pin (0,0), .txnPinned (0,0) .ro 0, .unpin (0,0) 2, .bound (0,0), .commitBegin (0,2),
    .commitA (0,2), .append (0,2), .committed (0,2), .createApplied (0,2), .cmdDone (0,0),
-   .cmdBegin (0,0) (.insert 1 [1, 2]), .pin (0,0), .txnPinned (0,0) .ro 1, .unpin (0,0) 3,
-   .pin (0,0), .txnPinned (0,0) .ro 0, .unpin (0,0) 3, .bound (0,0), .pin (0,3),
+   .cmdBegin (0,0) (.insert 1 [1, 2]), .pin (0,0), .txnPinned (0,0) .ro 0, .unpin (0,0) 3,
+   .pin (0,0), .txnPinned (0,0) .ro 1, .unpin (0,0) 3, .bound (0,0), .pin (0,3),
    .txnPinned (0,3) .rw 0, .commitBegin (0,3), .commitA (0,3), .append (0,3), .committed (0,3),
    .unpin (0,3) 3, .cmdDone (0,0), .cmdBegin (0,0) (.insert 1 [3]), .pin (0,0),
-   .txnPinned (0,0) .ro 1, .unpin (0,0) 4, .pin (0,0), .txnPinned (0,0) .ro 0, .unpin (0,0) 4,
+   .txnPinned (0,0) .ro 0, .unpin (0,0) 4, .pin (0,0), .txnPinned (0,0) .ro 1, .unpin (0,0) 4,
    .bound (0,0), .pin (0,4), .txnPinned (0,4) .rw 0, .commitBegin (0,4), .commitA (0,4),
    .append (0,4), .committed (0,4), .unpin (0,4) 4, .cmdDone (0,0),
-   .cmdBegin (0,0) (.insert 2 [101, 102]), .pin (0,0), .txnPinned (0,0) .ro 1, .unpin (0,0) 5,
-   .pin (0,0), .txnPinned (0,0) .ro 0, .unpin (0,0) 5, .bound (0,0), .pin (0,5),
+   .cmdBegin (0,0) (.insert 2 [101, 102]), .pin (0,0), .txnPinned (0,0) .ro 0, .unpin (0,0) 5,
+   .pin (0,0), .txnPinned (0,0) .ro 1, .unpin (0,0) 5, .bound (0,0), .pin (0,5),
    .txnPinned (0,5) .rw 1, .commitBegin (0,5), .commitA (0,5), .append (0,5), .committed (0,5),
    .unpin (0,5) 5, .cmdDone (0,0), .cmdBegin (0,0) (.insert 2 [103]), .pin (0,0),
-   .txnPinned (0,0) .ro 1, .unpin (0,0) 6, .pin (0,0), .txnPinned (0,0) .ro 0, .unpin (0,0) 6,
+   .txnPinned (0,0) .ro 0, .unpin (0,0) 6, .pin (0,0), .txnPinned (0,0) .ro 1, .unpin (0,0) 6,
    .bound (0,0), .pin (0,6), .txnPinned (0,6) .rw 1, .commitBegin (0,6), .commitA (0,6),
    .append (0,6), .committed (0,6), .unpin (0,6) 6, .cmdDone (0,0), .cmdBegin (1,0) .compact,
-   .cmdBegin (2,0) (.delete 1 .eq 1), .cmdBegin (3,0) (.delete 2 .eq 101), .pin (1,0),
-   .cpPinned (1,0), .cpTable (1,0) 1, .cpLocked (1,0) 1, .pin (2,0), .txnPinned (2,0) .ro 1,
-   .unpin (2,0) 7, .pin (2,0), .txnPinned (2,0) .ro 0, .unpin (2,0) 7, .bound (2,0), .pin (2,1),
-   .txnPinned (2,1) .ro 0, .pin (2,2), .txnPinned (2,2) .upd 0, .unpin (2,1) 7, .txnLocked (2,2),
-   .commitBegin (2,2), .commitA (2,2), .append (2,2), .committed (2,2), .unpin (2,2) 7,
-   .cmdDone (2,0), .commitBegin (1,0), .commitA (1,0), .append (1,0), .committed (1,0),
-   .cpTable (1,0) 0, .cpLocked (1,0) 0, .commitBegin (1,0), .commitA (1,0), .append (1,0),
-   .committed (1,0), .cpEnd (1,0), .unpin (1,0) 7, .cmdDone (1,0), .pin (3,0),
-   .txnPinned (3,0) .ro 1, .unpin (3,0) 10, .pin (3,0), .txnPinned (3,0) .ro 0, .unpin (3,0) 10,
-   .bound (3,0), .pin (3,1), .txnPinned (3,1) .ro 1, .pin (3,2), .txnPinned (3,2) .upd 1,
-   .unpin (3,1) 10, .txnLocked (3,2), .commitBegin (3,2), .commitA (3,2), .append (3,2),
-   .committed (3,2), .unpin (3,2) 10, .cmdDone (3,0)]
+   .cmdBegin (2,0) (.delete 1 .eq 1), .cmdBegin (3,0) (.delete 2 .eq 101), .cpPinned (1,0),
+   .cpTable (1,0) 0, .pin (1,0), .cpLocked (1,0) 0, .pin (3,0), .txnPinned (3,0) .ro 0,
+   .unpin (3,0) 7, .pin (3,0), .txnPinned (3,0) .ro 1, .unpin (3,0) 7, .bound (3,0), .pin (3,1),
+   .txnPinned (3,1) .ro 1, .lockBegin (3,2), .unpin (3,1) 7, .pin (3,2), .txnPinned (3,2) .upd 1,
+   .txnLocked (3,2), .commitBegin (3,2), .commitA (3,2), .append (3,2), .committed (3,2),
+   .unpin (3,2) 7, .cmdDone (3,0), .commitBegin (1,0), .commitA (1,0), .append (1,0),
+   .committed (1,0), .unpin (1,0) 7, .cpTable (1,0) 1, .pin (1,0), .cpLocked (1,0) 1,
+   .commitBegin (1,0), .commitA (1,0), .append (1,0), .committed (1,0), .unpin (1,0) 9,
+   .cpEnd (1,0), .cmdDone (1,0), .pin (2,0), .txnPinned (2,0) .ro 0, .unpin (2,0) 10, .pin (2,0),
+   .txnPinned (2,0) .ro 1, .unpin (2,0) 10, .bound (2,0), .pin (2,1), .txnPinned (2,1) .ro 0,
+   .lockBegin (2,2), .unpin (2,1) 10, .pin (2,2), .txnPinned (2,2) .upd 0, .txnLocked (2,2),
+   .commitBegin (2,2), .commitA (2,2), .append (2,2), .committed (2,2), .unpin (2,2) 10,
+   .cmdDone (2,0)]
 
-/-- Schedule taken from the real implementation (case `w-delete-after-compaction`): the scan of
-`DELETE FROM t1 WHERE v = 1` (its own read transaction) collects its row handler while the
-compactor holds the table lock; the compaction commits; the DELETE then takes the lock and writes
-its delete vector against a row-set that is no longer in the snapshot. -/
+/-- The scan of `DELETE FROM t1 WHERE v = 1` collects its row handler while the compactor holds
+the table lock; the compaction commits; the DELETE then takes the lock, pins, and finds the
+handler's row-set gone. -/
 def deleteAfterCompactionSchedule : List Act :=
   [.cmdBegin (0,0) (.create 1), .bound (0,0), .commitBegin (0,1), .commitA (0,1), .append (0,1),
    .committed (0,1), .createApplied (0,1), .cmdDone (0,0), .cmdBegin (0,0) (.insert 1 [1, 2]),
@@ -279,13 +283,12 @@ def deleteAfterCompactionSchedule : List Act :=
    .unpin (0,2) 2, .cmdDone (0,0), .cmdBegin (0,0) (.insert 1 [3]), .pin (0,0),
    .txnPinned (0,0) .ro 0, .unpin (0,0) 3, .bound (0,0), .pin (0,3), .txnPinned (0,3) .rw 0,
    .commitBegin (0,3), .commitA (0,3), .append (0,3), .committed (0,3), .unpin (0,3) 3,
-   .cmdDone (0,0), .cmdBegin (1,0) .compact, .cmdBegin (2,0) (.delete 1 .eq 1), .pin (1,0),
-   .cpPinned (1,0), .cpTable (1,0) 0, .cpLocked (1,0) 0, .pin (2,0), .txnPinned (2,0) .ro 0,
-   .unpin (2,0) 4, .bound (2,0), .pin (2,1), .txnPinned (2,1) .ro 0, .pin (2,2),
-   .txnPinned (2,2) .upd 0, .unpin (2,1) 4, .commitBegin (1,0), .commitA (1,0), .append (1,0),
-   .committed (1,0), .cpEnd (1,0), .unpin (1,0) 4, .cmdDone (1,0), .txnLocked (2,2),
-   .commitBegin (2,2), .commitA (2,2), .append (2,2), .committed (2,2), .unpin (2,2) 4,
-   .cmdDone (2,0)]
+   .cmdDone (0,0), .cmdBegin (1,0) .compact, .cmdBegin (2,0) (.delete 1 .eq 1), .cpPinned (1,0),
+   .cpTable (1,0) 0, .pin (1,0), .cpLocked (1,0) 0, .pin (2,0), .txnPinned (2,0) .ro 0,
+   .unpin (2,0) 4, .bound (2,0), .pin (2,1), .txnPinned (2,1) .ro 0, .lockBegin (2,2),
+   .unpin (2,1) 4, .commitBegin (1,0), .commitA (1,0), .append (1,0), .committed (1,0),
+   .unpin (1,0) 4, .cpEnd (1,0), .cmdDone (1,0), .pin (2,2), .txnPinned (2,2) .upd 0,
+   .txnLocked (2,2), .unpin (2,2) 5, .cmdDone (2,0)]
 
 def finalRows (acts : List Act) (t : Nat) : Option (List Int) := curRows (stateOf acts).k t
 
@@ -294,35 +297,30 @@ def ackedResults (acts : List Act) : List (Nat × List Int) :=
     | .delete t _ _, .rows xs => some (t, xs)
     | _, _ => none)
 
-/-- The current code's order (one pin per pass, taken before the per-table lock) admits a
-schedule on two tables in which an acknowledged DELETE is undone. -/
-theorem stale_snapshot_witness :
+def failedDeletes (acts : List Act) : Nat :=
+  ((stateOf acts).outs.filter (fun o => match o.2.1, o.2.2 with
+    | .delete _ _ _, .err _ => true
+    | _, _ => false)).length
+
+/-- REGRESSION (was `sched:compact-stale-snapshot-two-tables`): both DELETEs are acknowledged and
+both rows stay deleted although one of them committed between the start of the compaction pass
+and the compaction of its table. -/
+theorem stale_snapshot_regression :
     (run init staleSnapshotSchedule).isSome = true
-    -- both DELETEs were acknowledged with one row each
-    ∧ ackedResults staleSnapshotSchedule = [(1, [1]), (2, [1])]
-    -- table 0 (`t1`) still has row 1; table 1 (`t2`) lost row 101 as it should
-    ∧ (finalRows staleSnapshotSchedule 0).map (fun r => r.contains 1) = some true
+    ∧ (ackedResults staleSnapshotSchedule).length = 2
+    ∧ (finalRows staleSnapshotSchedule 0).map (fun r => r.contains 1) = some false
     ∧ (finalRows staleSnapshotSchedule 1).map (fun r => r.contains 101) = some false := by
   decide
 
-/-- A DELETE whose scan pinned before a compaction commits writes its delete vectors against
-removed row-sets: acknowledged, and without effect. -/
-theorem delete_after_compaction_witness :
+/-- REGRESSION (was `sched:delete-pinned-before-compaction-commit`): the DELETE whose handlers
+predate the compaction is NOT acknowledged (it fails), and the table is unchanged — no
+acknowledged delete without effect. -/
+theorem delete_after_compaction_regression :
     (run init deleteAfterCompactionSchedule).isSome = true
-    ∧ ackedResults deleteAfterCompactionSchedule = [(1, [1])]
+    ∧ ackedResults deleteAfterCompactionSchedule = []
+    ∧ failedDeletes deleteAfterCompactionSchedule = 1
     ∧ (finalRows deleteAfterCompactionSchedule 0).map (fun r => r.contains 1) = some true := by
   decide
-
-/-- The unconditional form of C09 ("every reachable quiescent state holds acknowledged inserts
-minus acknowledged deletes") is false for the model of the code that exists. -/
-def FinalStateExactUnconditional : Prop :=
-  ∀ acts : List Act, (run init acts).isSome = true →
-    ∀ t c, (t + 1, [1]) ∈ ackedResults acts → c = 1 → (stateOf acts).k.infl.isNone = true →
-      (finalRows acts t).map (fun r => r.contains c) ≠ some true
-
-theorem final_state_exact_unconditional_false : ¬ FinalStateExactUnconditional := by
-  intro h
-  exact h deleteAfterCompactionSchedule (by decide) 0 1 (by decide) rfl (by decide) (by decide)
 
 /-- First half of `final_state_exact`: in a schedule that satisfies the lock
 discipline (`FreshSnapshot` at the moment the compactor / the DELETE prepares its changeset),
